@@ -30,7 +30,7 @@ EXTENDS Integers, Sequences, FiniteSets, SequencesExt, TLC
 
 (* ==================================================================================== *)
 (* 1. Contract                                                                            *)
-(*   observed text   [dg, nt, cm, ln]                                                     *)
+(*   observed text   [dg, nt, cm, ln, ld]                                                 *)
 (*       dg   identity of the text (the text itself, or a digest of it)                   *)
 (*       nt   the text of its non-trivia tokens in order (the text of a keyword case-      *)
 (*            folded by whoever projects it; white space next to a line break inside a     *)
@@ -39,11 +39,12 @@ EXTENDS Integers, Sequences, FiniteSets, SequencesExt, TLC
 (*       cm   its comments and pragmas in order (text; white space next to a line break   *)
 (*            inside a comment and at its end is not part of the comparison)              *)
 (*       ln   per line <<number of nt entries, number of cm entries>> that START on it    *)
-(*   observed edit   [ls, le, cut, nf, nl, cf, cl, nt, cm]                                *)
+(*       ld   per line an identity of its text (the text, or a digest of it)              *)
+(*   observed edit   [ls, le, cut, nf, nl, cf, cl, nt, cm, ld]                            *)
 (*       ls, le   first / last line (0-based) of the text the edit replaces               *)
 (*       cut      one of its ends lies inside a token                                      *)
 (*       nf, nl   the replaced text holds nt[nf..nl] of the document (cf, cl: cm[cf..cl]) *)
-(*       nt, cm   tokens / comments of the new text                                        *)
+(*       nt, cm   tokens / comments of the new text; ld an identity of each of its lines   *)
 (* ==================================================================================== *)
 \* the formatted text is the same program
 ProgramWhy(before, after) ==
@@ -64,15 +65,12 @@ FirstDiff(s, t) ==
   IN IF d # {} THEN CHOOSE i \in d : \A j \in d : i <= j ELSE IF Len(s) = Len(t) THEN 0 ELSE n + 1
 
 (* ---- named deviations (recorded findings; never enabled in the design-level model)     *)
-\* number of entries of column k (1 = nt, 2 = cm) that start on the lines 1..n
-RECURSIVE UpTo(_, _, _)
-UpTo(ln, k, n) == IF n <= 0 THEN 0 ELSE UpTo(ln, k, n - 1) + (IF n <= Len(ln) THEN ln[n][k] ELSE 0)
-\* RangeFormatByLineIndex: the new text of the edit is lines ls..le of the FORMATTED document
-\* counted by index, although wrapping gave the formatted document more lines than the source
+\* RangeFormatByLineIndex: the new text of the edit is, line by line, the lines ls..le of the
+\* FORMATTED document counted by index, although wrapping gave the formatted document more
+\* lines than the source (ld = per line an identity of its text)
 ByLineIndex(formatted, e) ==
-  /\ e.le + 1 <= Len(formatted.ln)
-  /\ e.nt = SubSeq(formatted.nt, UpTo(formatted.ln, 1, e.ls) + 1, UpTo(formatted.ln, 1, e.le + 1))
-  /\ e.cm = SubSeq(formatted.cm, UpTo(formatted.ln, 2, e.ls) + 1, UpTo(formatted.ln, 2, e.le + 1))
+  /\ e.le + 1 <= Len(formatted.ld)
+  /\ e.ld = SubSeq(formatted.ld, e.ls + 1, e.le + 1)
 
 (* ==================================================================================== *)
 (* 2. Lexical model (IEC 61131-3 Ed.3 6.1-6.3, tables 1-9): a text is a sequence of       *)
@@ -186,24 +184,6 @@ CmNorm(t) ==
 NormToken(x) == IF x.k = "Kw" THEN UpSeq(x.t)
                 ELSE IF x.k = "Error" \/ Count(x.t, "\n") > 0 THEN CmNorm(x.t) ELSE x.t
 LineCount(t) == 1 + Count(t, "\n")
-\* what the contract observes of a text
-Observe(t) ==
-  LET toks == Lex(t)
-      code == SelectSeq(toks, IsCode)
-      cms == SelectSeq(toks, IsComment)
-  IN [dg |-> t,
-      nt |-> [i \in 1..Len(code) |-> NormToken(code[i])],
-      cm |-> [i \in 1..Len(cms) |-> CmNorm(cms[i].t)],
-      ln |-> [l \in 1..LineCount(t) |-> <<Cardinality({i \in 1..Len(code) : code[i].ln = l}), Cardinality({i \in 1..Len(cms) : cms[i].ln = l})>>]]
-
-(* ==================================================================================== *)
-(* 3. Reference formatter.  Configuration:                                                *)
-(*   [style "spaced"|"compact", kwcase "preserve"|"upper"|"lower", width, tabs,           *)
-(*    ends "aligned"|"indented", alignColons, alignAssign, max (0 = no wrapping),         *)
-(*    byIndex (the deviation RangeFormatByLineIndex; FALSE in the design)]                *)
-(* A line:  [mode "keep"|"blank"|"trim"|"emit", raw, eol, origin, ind, extra, invar,      *)
-(*           items <<[gap, k, t]>>]                                                       *)
-(* ==================================================================================== *)
 NlPositions(t) == SelectSeq([i \in 1..Len(t) |-> i], LAMBDA i : t[i] = "\n")
 \* the lines of a text: [raw characters without terminator, eol terminator]
 TextLines(t) ==
@@ -214,6 +194,27 @@ TextLines(t) ==
       cr(i) == i < n /\ to(i) >= from(i) /\ t[to(i)] = "\r"
   IN [i \in 1..n |-> [raw |-> SubSeq(t, from(i), IF cr(i) THEN to(i) - 1 ELSE to(i)),
                       eol |-> IF i = n THEN <<>> ELSE IF cr(i) THEN <<"\r", "\n">> ELSE <<"\n">>]]
+\* what the contract observes of a text
+Observe(t) ==
+  LET toks == Lex(t)
+      code == SelectSeq(toks, IsCode)
+      cms == SelectSeq(toks, IsComment)
+      tl == TextLines(t)
+  IN [dg |-> t,
+      nt |-> [i \in 1..Len(code) |-> NormToken(code[i])],
+      cm |-> [i \in 1..Len(cms) |-> CmNorm(cms[i].t)],
+      ln |-> [l \in 1..LineCount(t) |-> <<Cardinality({i \in 1..Len(code) : code[i].ln = l}), Cardinality({i \in 1..Len(cms) : cms[i].ln = l})>>],
+      ld |-> [l \in 1..Len(tl) |-> tl[l].raw]]
+
+(* ==================================================================================== *)
+(* 3. Reference formatter.  Configuration:                                                *)
+(*   [style "spaced"|"compact", kwcase "preserve"|"upper"|"lower", width, tabs,           *)
+(*    ends "aligned"|"indented", alignColons, alignAssign, max (0 = no wrapping),         *)
+(*    byIndex (the deviation RangeFormatByLineIndex), blindGlue (glue wherever the style  *)
+(*    wants it, whatever the glued text reads as); both FALSE in the design]              *)
+(* A line:  [mode "keep"|"blank"|"trim"|"emit", raw, eol, origin, ind, extra, invar,      *)
+(*           items <<[gap, k, t]>>]                                                       *)
+(* ==================================================================================== *)
 Trim(s) == LET S == {i \in 1..Len(s) : s[i] \notin WS} IN IF S = {} THEN <<>> ELSE SubSeq(s, SetMin(S), SetMax(S))
 Openers == { <<"I","F">>, <<"V","A","R">>, <<"E","L","S","E">> }
 Closers == { <<"E","N","D","_","I","F">>, <<"E","N","D","_","V","A","R">>, <<"E","L","S","E">> }
